@@ -264,8 +264,15 @@ def rstripBeforeBreak : List INode → List INode
     (if a.kind == .text && !a.text.isEmpty && b.kind == .brk then { a with text := rstrip a.text } else a)
       :: rstripBeforeBreak (b :: rest)
 
+/-- a line break after which nothing is displayed is dropped (`while collection[-1].is_explicit_break(): pop()`) -/
+def dropTrailingBreaks : List INode → List INode
+  | [] => []
+  | n :: ns =>
+    let r := dropTrailingBreaks ns
+    if r.isEmpty && n.kind == .brk then [] else n :: r
+
 def formatItalics (coll : List INode) : List INode :=
-  rstripBeforeBreak (removeOffOn none (removeOnOff none (ensureFinalClose (closeBeforeRepos false (0, 0)
+  rstripBeforeBreak (dropTrailingBreaks <| removeOffOn none (removeOnOff none (ensureFinalClose (closeBeforeRepos false (0, 0)
     (skipRedundant none (skipEmptyText (skipInitialOff false coll)))))))
 
 /-! ### caption stash -/
